@@ -128,4 +128,207 @@ theorem select_guard (s : St) (cs : List Case) (pick : Nat) (hc : s.cur = none)
           have hne := ready_send_no_guard s v hr
           cases ho : (send s v).1 <;> simp_all
 
+
+/-! ### invariant: `$noGoroutine` never owns a queue entry and is never scheduled -/
+
+/-- no queue entry belongs to `$noGoroutine` and `$noGoroutine` is not on the run queue -/
+def Inv (s : St) : Prop :=
+  (∀ e ∈ s.chan.sendQ, e.g ≠ none) ∧ (∀ e ∈ s.chan.recvQ, e.g ≠ none) ∧ none ∉ s.scheduled
+
+theorem drain_clean : ∀ (l : List Gid), none ∉ l → drain l = (false, [])
+  | [], _ => rfl
+  | none :: _, h => absurd (by simp) h
+  | some _ :: r, h => by
+    simp only [drain]
+    exact drain_clean r (fun hm => h (by simp [hm]))
+
+theorem schedule_inv (s : St) (g : Gid) (hi : Inv s) (hg : g ≠ none) :
+    (schedule s g).1 = false ∧ Inv (schedule s g).2 ∧ (schedule s g).2.cur = s.cur ∧ (schedule s g).2.chan = s.chan := by
+  obtain ⟨h1, h2, h3⟩ := hi
+  cases g with
+  | none => exact absurd rfl hg
+  | some n =>
+    have hns : none ∉ s.scheduled ++ [some n] := by simp [h3]
+    unfold schedule
+    by_cases hm : n ∈ s.asleep
+    · cases hc : s.cur with
+      | none => simp [hm, hc, drain_clean _ hns, Inv]; exact ⟨h1, h2⟩
+      | some c => simp [hm, hc, Inv, h3]; exact ⟨h1, h2⟩
+    · cases hc : s.cur with
+      | none => simp [hm, hc, drain_clean _ hns, Inv]; exact ⟨h1, h2⟩
+      | some c => simp [hm, hc, Inv, h3]; exact ⟨h1, h2⟩
+
+theorem removeSel_sub (c : Chan) (k : Option Nat) :
+    (∀ e ∈ (removeSel c k).sendQ, e ∈ c.sendQ) ∧ (∀ e ∈ (removeSel c k).recvQ, e ∈ c.recvQ) ∧
+    (removeSel c k).buffer = c.buffer ∧ (removeSel c k).closed = c.closed ∧ (removeSel c k).capacity = c.capacity := by
+  cases k with
+  | none => simp [removeSel]
+  | some k =>
+    simp only [removeSel]
+    refine ⟨fun e he => (List.mem_filter.mp he).1, fun e he => (List.mem_filter.mp he).1, ?_, ?_, ?_⟩ <;> first | rfl | trivial
+
+theorem send_inv (s : St) (v : Nat) (hi : Inv s) : (send s v).1 ≠ .typeErrorNotAFunction ∧ Inv (send s v).2 := by
+  obtain ⟨h1, h2, h3⟩ := hi
+  unfold send
+  by_cases hcl : s.chan.closed = true
+  · rw [if_pos hcl]; exact ⟨by simp, h1, h2, h3⟩
+  · rw [if_neg hcl]
+    cases hq : s.chan.recvQ with
+    | cons r rq =>
+      have hr : r.g ≠ none := h2 r (by simp [hq])
+      have hsub := removeSel_sub { s.chan with recvQ := rq } r.sel
+      have hi' : Inv { s with chan := removeSel { s.chan with recvQ := rq } r.sel, delivered := s.delivered ++ [(r.g, v)] } := by
+        refine ⟨fun e he => h1 e (hsub.1 e he), fun e he => h2 e ?_, h3⟩
+        have := hsub.2.1 e he
+        rw [hq]; exact List.mem_cons_of_mem _ this
+      obtain ⟨hf, hinv, _, _⟩ := schedule_inv _ r.g hi' hr
+      dsimp only
+      rw [hf]
+      exact ⟨by simp, hinv⟩
+    | nil =>
+      dsimp only
+      by_cases hb : s.chan.buffer.length < s.chan.capacity
+      · rw [if_pos hb]; exact ⟨by simp, h1, by simp [hq], h3⟩
+      · rw [if_neg hb]
+        cases hc : s.cur with
+        | none => simp only [canBlock, hc, Option.isSome_none, Bool.not_false, if_true]; exact ⟨by simp, h1, by simp [hq], h3⟩
+        | some c =>
+          simp only [canBlock, hc, block, Option.isSome_some, Bool.not_true, Bool.false_eq_true, if_false]
+          refine ⟨by simp, ?_, by simp [hq], h3⟩
+          intro e he
+          simp only [List.mem_append, List.mem_singleton] at he
+          rcases he with he | rfl
+          · exact h1 e he
+          · simp
+
+theorem pullSender_inv (s : St) (hi : Inv s) : (pullSender s).1 = false ∧ Inv (pullSender s).2 ∧ (pullSender s).2.cur = s.cur := by
+  obtain ⟨h1, h2, h3⟩ := hi
+  unfold pullSender
+  cases hq : s.chan.sendQ with
+  | nil => exact ⟨rfl, ⟨h1, h2, h3⟩, rfl⟩
+  | cons e sq =>
+    have he : e.g ≠ none := h1 e (by simp [hq])
+    have hsub := removeSel_sub { s.chan with sendQ := sq } e.sel
+    have hi' : Inv { s with chan := removeSel { s.chan with sendQ := sq } e.sel } := by
+      refine ⟨fun x hx => h1 x ?_, fun x hx => h2 x (hsub.2.1 x hx), h3⟩
+      have := hsub.1 x hx
+      rw [hq]; exact List.mem_cons_of_mem _ this
+    obtain ⟨hf, hinv, hcur, hchan⟩ := schedule_inv _ e.g hi' he
+    simp only [hf, Bool.false_eq_true, if_false]
+    refine ⟨trivial, ?_, hcur⟩
+    obtain ⟨a, b, c⟩ := hinv
+    exact ⟨a, b, c⟩
+
+theorem recv_inv (s : St) (hi : Inv s) : (recv s).1 ≠ .typeErrorNotAFunction ∧ Inv (recv s).2 := by
+  obtain ⟨hf, ⟨h1, h2, h3⟩, hcur⟩ := pullSender_inv s hi
+  unfold recv
+  simp only [hf, Bool.false_eq_true, if_false]
+  cases hb : (pullSender s).2.chan.buffer with
+  | cons b bs => exact ⟨by simp, h1, h2, h3⟩
+  | nil =>
+    by_cases hcl : (pullSender s).2.chan.closed = true
+    · rw [if_pos hcl]; exact ⟨by simp, h1, h2, h3⟩
+    · rw [if_neg hcl]
+      cases hc : (pullSender s).2.cur with
+      | none => simp only [canBlock, hc, Option.isSome_none, Bool.not_false, if_true]; exact ⟨by simp, h1, h2, h3⟩
+      | some c =>
+        simp only [canBlock, hc, block, Bool.false_eq_true, if_false, Option.isSome_some, Bool.not_true]
+        refine ⟨by simp, h1, ?_, h3⟩
+        intro e he
+        simp only [List.mem_append, List.mem_singleton] at he
+        rcases he with he | rfl
+        · exact h2 e he
+        · simp
+
+theorem pushEntries_inv (g : Gid) (k : Nat) (hg : g ≠ none) : ∀ (cs : List Case) (c : Chan),
+    (∀ e ∈ c.sendQ, e.g ≠ none) → (∀ e ∈ c.recvQ, e.g ≠ none) →
+    (∀ e ∈ (pushEntries c g k cs).sendQ, e.g ≠ none) ∧ (∀ e ∈ (pushEntries c g k cs).recvQ, e.g ≠ none)
+  | [], c, h1, h2 => ⟨h1, h2⟩
+  | .send v :: r, c, h1, h2 => by
+    simp only [pushEntries]
+    refine pushEntries_inv g k hg r _ ?_ h2
+    intro e he
+    simp only [List.mem_append, List.mem_singleton] at he
+    rcases he with he | rfl
+    · exact h1 e he
+    · exact hg
+  | .recv :: r, c, h1, h2 => by
+    simp only [pushEntries]
+    refine pushEntries_inv g k hg r _ h1 ?_
+    intro e he
+    simp only [List.mem_append, List.mem_singleton] at he
+    rcases he with he | rfl
+    · exact h2 e he
+    · exact hg
+  | .dflt :: r, c, h1, h2 => by
+    simp only [pushEntries]
+    exact pushEntries_inv g k hg r c h1 h2
+
+theorem select_inv (s : St) (cs : List Case) (pick : Nat) (hi : Inv s) :
+    (select s cs pick).1 ≠ .typeErrorNotAFunction ∧ Inv (select s cs pick).2 := by
+  unfold select
+  by_cases hcl : sendOnClosed s cs = true
+  · rw [if_pos hcl]; exact ⟨by simp, hi⟩
+  · rw [if_neg hcl]
+    cases hch : choose s cs pick with
+    | some i =>
+      simp only
+      cases hci : cs[i]? with
+      | none => exact ⟨by simp, hi⟩
+      | some c =>
+        cases c with
+        | dflt => exact ⟨by simp, hi⟩
+        | send v =>
+          obtain ⟨hne, hinv⟩ := send_inv s v hi
+          refine ⟨?_, hinv⟩
+          simp only
+          split <;> simp_all
+        | recv =>
+          obtain ⟨hne, hinv⟩ := recv_inv s hi
+          refine ⟨?_, hinv⟩
+          simp only
+          cases ho : (recv s).1 <;> simp_all
+    | none =>
+      simp only
+      cases hc : s.cur with
+      | none => simp only [canBlock, hc, Option.isSome_none, Bool.not_false, if_true]; exact ⟨by simp, hi⟩
+      | some c =>
+        obtain ⟨h1, h2, h3⟩ := hi
+        have := pushEntries_inv (some c) s.nextSel (by simp) cs s.chan h1 h2
+        simp only [canBlock, hc, block, Option.isSome_some, Bool.not_true, Bool.false_eq_true, if_false]
+        exact ⟨by simp, this.1, this.2, h3⟩
+
+theorem inv_cur (s : St) (g : Gid) (hi : Inv s) : Inv { s with cur := g } := hi
+
+theorem step_inv (s : St) (e : Ev) (hi : Inv s) : (step s e).1 ≠ .typeErrorNotAFunction ∧ Inv (step s e).2 := by
+  cases e with
+  | send g v => exact send_inv { s with cur := g } v hi
+  | recv g => exact recv_inv { s with cur := g } hi
+  | select g pick cs => exact select_inv { s with cur := g } cs pick hi
+  | dequeue =>
+    obtain ⟨h1, h2, h3⟩ := hi
+    simp only [step, dequeue]
+    cases hs : s.scheduled with
+    | nil => exact ⟨by simp, h1, h2, by simp [hs]⟩
+    | cons a r =>
+      cases a with
+      | none => rw [hs] at h3; simp at h3
+      | some g =>
+        refine ⟨by simp, h1, h2, ?_⟩
+        rw [hs] at h3
+        intro hm; exact h3 (by simp [hm])
+
+theorem run_inv : ∀ (es : List Ev) (s : St), Inv s → .typeErrorNotAFunction ∉ (run s es).1 ∧ Inv (run s es).2
+  | [], s, hi => ⟨by simp [run], hi⟩
+  | e :: es, s, hi => by
+    obtain ⟨hne, hinv⟩ := step_inv s e hi
+    obtain ⟨h1, h2⟩ := run_inv es (step s e).2 hinv
+    simp only [run]
+    refine ⟨?_, h2⟩
+    intro hm
+    simp only [List.mem_cons] at hm
+    rcases hm with hm | hm
+    · exact hne hm.symm
+    · exact h1 hm
+
 end GV.Proofs.CbGuard
